@@ -288,6 +288,14 @@ func c3GenScenario(t *simrt.Tape) *c3Scenario {
 		case 2:
 			sc.Flags = append(sc.Flags, "-g", "{1}", "-g", "{2}")
 		}
+		if t.WBool(1, 2) {
+			// rows ordered by an accumulator (ties: by group key), optionally reversed: the order of the CSV rows and of the
+			// snapshot must not depend on how many refreshes happened while the values were still changing
+			sc.Flags = append(sc.Flags, "--sort", []string{"{total}", "{n}", "{mx}", "{bucket {total} 10}"}[t.W(4)])
+			if t.WBool(1, 3) {
+				sc.Flags = append(sc.Flags, "--sort-reverse")
+			}
+		}
 		sc.HasCSV = true
 	case "analyze":
 		sc.Tpls = []c3Tpl{{{Grp: 3}}}
